@@ -268,6 +268,9 @@ func (x *Exec) afterCall(s *State, fr *Frame, call *ast.CallExpr, text string, s
 		return
 	}
 	c := cf.contract
+	for _, ce := range c.Clobbers[text] {
+		x.havocLvalue(s, fr, ce.Expr, false)
+	}
 	for _, oc := range c.OnCall {
 		d := oc.Dir
 		if !x.siteMatches(c, d, call, text) {
